@@ -262,7 +262,7 @@ def gen_leaf_type(rng, base=None, facet_p=0.7):
             fa['pattern'] = rng.choice(PATTERNS)
         else:
             a = rng.choice([0, 1, 2, 3])
-            if rng.random() < 0.6:
+            if rng.random() < 0.6 and a > 0:          # min_len=0 is the class default: not a customisation
                 fa['min_len'] = a
             if rng.random() < 0.7:
                 fa['max_len'] = a + rng.choice([0, 1, 3, 8])
